@@ -19,10 +19,15 @@ for f in sys.argv[1:]:
 out = []
 for m, r in sorted(rows.items()):
     mm = re.search(r"wt-(C\d+)([bc]?)/MUTANTS/m(\d)", m)
-    if not mm:
+    ms = re.search(r"seeded/(C\d+)-(w\d)m(\d)$", m)
+    if mm:
+        pid, wave, k = mm.group(1), mm.group(2), mm.group(3)
+        name = f"{pid}-{ {'': 'w1', 'b': 'w2', 'c': 'w3'}[wave] }m{k}"
+    elif ms:
+        pid, k = ms.group(1), ms.group(3)
+        name = f"{pid}-{ms.group(2)}m{k}"
+    else:
         continue
-    pid, wave, k = mm.group(1), mm.group(2), mm.group(3)
-    name = f"{pid}-{ {'': 'w1', 'b': 'w2', 'c': 'w3'}[wave] }m{k}"
     valid = bool(r.get("suite_passes_with") and r.get("demo_fails_with") and r.get("demo_passes_without"))
     if not valid:
         print("skip (not confirmed):", name, r.get("suite_passes_with"), r.get("demo_fails_with"), r.get("demo_passes_without"), r.get("error"))
@@ -31,7 +36,7 @@ for m, r in sorted(rows.items()):
     os.makedirs(d, exist_ok=True)
     for fn in ("patch.diff", "demo.rs", "README.md"):
         src = os.path.join(m, fn)
-        if os.path.exists(src):
+        if os.path.exists(src) and os.path.abspath(src) != os.path.abspath(os.path.join(d, fn)):
             shutil.copy(src, os.path.join(d, fn))
     readme = open(os.path.join(m, "README.md")).read() if os.path.exists(os.path.join(m, "README.md")) else ""
     meta = {
